@@ -327,6 +327,7 @@ func (s *Sched) Run(bodies []func(task int), timeout time.Duration) *HangInfo {
 	deadline := time.Now().Add(timeout)
 	lastEv, quiet := -1, 0
 	nextLook := 0
+	extensions := 0
 	for {
 		select {
 		case <-doneCh:
@@ -365,11 +366,24 @@ func (s *Sched) Run(bodies []func(task int), timeout time.Duration) *HangInfo {
 			}
 		}
 		if time.Now().After(deadline) {
-			break
+			d := allStacks()
+			if blockedInIce(d) {
+				return &HangInfo{MutexBlocked: true, Dump: trimDump(d)}
+			}
+			if runningInIce(d) {
+				// not blocked but busy inside ice without reaching a seam: give a
+				// slow machine three more periods before calling it a loop that does
+				// not terminate (a verdict as well: the call never returns)
+				if extensions < 3 {
+					extensions++
+					deadline = time.Now().Add(timeout)
+					continue
+				}
+				return &HangInfo{MutexBlocked: true, Dump: fmt.Sprintf("(no goroutine is blocked; one has been running inside ice for %v without reaching a seam or returning)\n", 4*timeout) + trimDump(d)}
+			}
+			return &HangInfo{MutexBlocked: false, Dump: trimDump(d)}
 		}
 	}
-	d := allStacks()
-	return &HangInfo{MutexBlocked: blockedInIce(d), Dump: trimDump(d)}
 }
 
 func allStacks() string {
